@@ -7,8 +7,22 @@ SPEC = {
         {"dialect": "sys", "quick_n": 250, "thorough_n": 5000, "judge": "judge-c02-sys"},
     ],
     "oracles": [
-        {"name": "hist", "quick_args": ["-props", "C02", "-n", "25", "-steps", "40"],
+        # hist (harness/hist.go, hist_c02.go, o_hist.go): random multi-session histories on the whole server, X CONVERGE =
+        # barrier + NOOP + comparison of every session's view with a fresh session's. With -props C02 every fourth history
+        # holds a BURST against a STALLED observer (S<i> STALL: a FETCH of 8 MiB whose answer the client does not read, so
+        # the session takes nothing from its update queue; another session commits 2-3 waves of growing size - mass
+        # EXPUNGE / MOVE / COPY, k single STOREs / APPENDs, sizes around the update channel's buffer 32 and the queue's
+        # capacity 128 - then the client reads on), every fourth a BATCH creation (COPY / MOVE n:m, connector
+        # MessagesCreated batch: several messages with identical flags made by ONE operation) followed by an in-place
+        # change of ONE member in ONE session (non-PEEK body fetch, STORE) while other sessions flush the EXISTS only
+        # afterwards. Directed instances: corpus/C02/burst-*.hist, batch-*.hist.
+        {"name": "hist", "quick_args": ["-props", "C02", "-n", "40", "-steps", "40"],
          "thorough_args": ["-props", "C02", "-n", "400", "-steps", "70", "-profile", "hold,samebox"], "timeout": 3000},
+        # the assumption "FIFO loss-free update queue" on the real async.QueuedChannel (the oracle of C19): recorded
+        # histories judged against Model/Conc.lean, incl. the `stall` scenarios (reader not reading, waves of growing size
+        # around the channel buffer and the queue capacity, as State.updatesQueue = NewQueuedChannel(32, 128) sees them
+        # when a session is busy inside a command)
+        {"name": "c19queue", "quick_args": ["-n", "40"], "thorough_args": ["-n", "3000"], "timeout": 1500},
     ],
     "trusted_base": [
         "Lean 4.33.0 kernel; axioms limited to propext, Classical.choice, Quot.sound (audited per theorem)",
@@ -19,7 +33,7 @@ SPEC = {
     ],
     "assumptions": [
         "system level (Theorems/SysC02.lean): the invariant and convergence are proved under the NAMED hypothesis NoOvertake (no session runs a mutating command or SELECT while an update for its mailbox is still in its update queue and the command hands responders to its own state); without it they are false of the code: own_update_overtakes_foreign (kernel-checked witness, reproduced on the real server by corpus/C02/sys-own-update-overtakes.ops; known finding K-own-update-overtakes-foreign). Not in the system model: \\Recent, EXAMINE, IDLE, CLOSE, UID commands, message-set syntax (single sequence numbers), storage errors, limits",
-        "session-level statement: every committed change reaches the observer's queue as exactly one responder, in commit order (FIFO loss-free update queue, filters); change_target_known shows the message filter cannot drop it inside the invariant; the delivery path itself is covered by the wire-level oracle, not by theorem",
+        "session-level statement: every committed change reaches the observer's queue as exactly one responder, in commit order (FIFO loss-free update queue, filters); change_target_known shows the message filter cannot drop it inside the invariant; the delivery path itself is covered by the wire-level oracle (incl. bursts of 1..200 updates against a session that is stalled inside a command, hist_c02.go) and by the recorded histories of the real queue judged against Model/Conc.lean (oracle c19queue, theorem C19.queue_fifo_lossfree), not by theorem. Sharing of mutable objects between snapshots / pending responders (Go aliasing) does not exist in the Lean model (values): it is searched for by the batch histories of the wire-level oracle only",
         "the database never reuses a UID and hands UIDs out in increasing order (Mbox.Admissible: a new message gets a UID >= UIDNext); this gives the named hypothesis UidsOk",
         "flush_false_replay_eq / flush_false_keeps_invariant hold for every queue inside UidsOk (witness that it is needed: flush_false_needs_fresh_uids, a reused UID); converges needs admissibility of the changes only. The former hypotheses FetchSafe / NoOwnHeld (defects #10, #8) are gone since gluon commit 'fix: while a re-added message is held back, later EXISTS and its flag changes are held back too'; the two former counter-examples are regression examples in Theorems/C02.lean and corpus/C02/defect*.ops",
         "flushes inside a CLOSE context are not part of a history (the mailbox is deselected right after); \\Recent is ignored as the property says",
